@@ -1,2 +1,13 @@
-import StimModel
-def main : IO Unit := IO.println "stub"
+import StimModel.Driver.Dispatch
+open Stim
+
+partial def loop (h : IO.FS.Stream) (out : IO.FS.Stream) : IO Unit := do
+  let line ← h.getLine
+  if line.isEmpty then return ()
+  out.putStrLn (Stim.Driver.answer (line.trimAscii.toString.splitOn " "))
+  loop h out
+
+def main : IO Unit := do
+  let out ← IO.getStdout
+  loop (← IO.getStdin) out
+  out.flush
